@@ -28,8 +28,8 @@ def run(chk):
     if pc:
         rule_redef(chk, pc)
         rule_include(chk, pc)
-    rule_args(chk)
     expanded = rule_expand_eval(chk)
+    rule_args(chk, shape=not expanded)
     rule_paste_eval(chk)
     rule_once(chk, rule_loader_eval(chk))
     rule_defines(chk)
@@ -135,10 +135,16 @@ def rule_include(chk, pc):
            "FileLoader::load is no longer given the including file's id as parent", where(pc))
 
 
-def rule_args(chk):
+def rule_args(chk, shape=True):
+    """The shape rules about split_macro_args and the body substitution are the fallback of the expansion table
+    (C12.expand/*, whose inputs nest parentheses and commas in arguments): they decide only when apply_macros is not
+    readable as a table."""
     f = chk.facts
     sm = chk.anchor("C12.anchor/split_macro_args", f.fn("split_macro_args", PP), "split_macro_args")
-    if sm:
+    if not shape:
+        for k in ("open-paren", "close-paren", "comma-at-depth-0", "substitution"):
+            chk.ob("C12.args/" + k, True, "decided by the evaluated apply_macros (C12.expand/*)", where(sm) if sm else PP, trivial=True)
+    if sm and shape:
         m = None
         for mm in F.exprs(sm["thir"], "Match"):
             vs = {pv[1] for arm in mm["arms"] for alt in F.pat_alternatives(arm["pat"]) for p in F.walk(alt) if p.get("k") == "Variant" for pv in [F.pat_variant(p)] if pv and pv[0] == "Token"}
@@ -182,7 +188,7 @@ def rule_args(chk):
             chk.ob("C12.args/comma-at-depth-0", okc, "a comma separates arguments only at depth 0" if okc else
                    "a comma no longer splits arguments exactly when brace_scope == 0", where(sm))
     asm = f.fn("apply_single_macro", PP)
-    if chk.anchor("C12.anchor/apply_single_macro", asm, "apply_single_macro"):
+    if shape and chk.anchor("C12.anchor/apply_single_macro", asm, "apply_single_macro"):
         # body substitution: if let MacroArg(i) = token.0 { output.extend_from_slice(&args[i]) } else { output.push(token.clone()) }
         ok = False
         for body_fn in F.family(f, asm, depth=1):
